@@ -399,10 +399,13 @@ fn deserialize_iterator<'a, 'b, T: BinaryDeserializer + 'a>(
             context,
             element: PhantomData,
         },
-        Ok(length) => DeserializerIterator::KnownSize {
-            context,
-            remaining: length as usize,
-            element: PhantomData,
+        Ok(length) => match usize::try_from(length) {
+            Ok(remaining) => DeserializerIterator::KnownSize {
+                context,
+                remaining,
+                element: PhantomData,
+            },
+            Err(_) => DeserializerIterator::InvalidLength(length),
         },
     }
 }
@@ -418,6 +421,7 @@ enum DeserializerIterator<'a, 'b, T: BinaryDeserializer + 'a> {
         element: PhantomData<T>,
     },
     InputEndedUnexpectedly,
+    InvalidLength(i32),
 }
 
 impl<'a, 'b, T: BinaryDeserializer + 'a> Iterator for DeserializerIterator<'a, 'b, T> {
@@ -428,6 +432,9 @@ impl<'a, 'b, T: BinaryDeserializer + 'a> Iterator for DeserializerIterator<'a, '
             DeserializerIterator::InputEndedUnexpectedly => {
                 Some(Err(Error::InputEndedUnexpectedly))
             }
+            DeserializerIterator::InvalidLength(length) => Some(Err(
+                Error::DeserializationFailure(format!("Invalid sequence length: {length}")),
+            )),
             DeserializerIterator::KnownSize {
                 ref mut context,
                 remaining,
